@@ -24,7 +24,10 @@ Init == tid \in 1..Len(Traces) /\ l = 1 /\ stack = <<>> /\ lineUnits = 0 /\ atLi
 E == Ev[l]
 Adv == l' = l + 1 /\ UNCHANGED tid
 NextIsClose == l + 1 <= Len(Ev) /\ Ev[l + 1].ev = "close"
-NextIsTrigOpen == l + 1 <= Len(Ev) /\ Ev[l + 1].ev \in {"open", "selfclose"} /\ Ev[l + 1].trig
+\* the comment template may itself end in a line break (comment.before = "<!-- ... -->" + LF): line starts between a comment and its element are skipped
+RECURSIVE SkipLines(_)
+SkipLines(i) == IF i <= Len(Ev) /\ Ev[i].ev = "line" THEN SkipLines(i + 1) ELSE i
+NextIsTrigOpen == LET j == SkipLines(l + 1) IN j <= Len(Ev) /\ Ev[j].ev \in {"open", "selfclose"} /\ Ev[j].trig
 Line == /\ E.ev = "line" /\ Adv
         /\ ok' = IF ~Tr.indent_clause THEN "ok"
                  ELSE IF ~E.baseok THEN "base-indent"
